@@ -145,6 +145,9 @@ class TLCResult:
         m = re.search(r'Invariant (\S+) is violated', out) or re.search(r'The invariant of (\S+) is equal to FALSE', out)
         if m:
             self.violated = m.group(1)
+        m1 = re.search(r'Temporal property (\S+) was violated', out)
+        if m1 and not self.violated:
+            self.violated = m1.group(1)
         m2 = re.search(r'Temporal properties were violated', out)
         if m2 and not self.violated:
             self.violated = 'TEMPORAL'
